@@ -426,11 +426,18 @@ def r4_files(ctx, res):
                                               'finally block (the unlink must target the temp path, never the source)')
     if 'source.unlink' in s or 'os.remove(source' in s:
         res.find(key + ':source', gd.module.loc(gd.node), '_get_decompressed deletes the source file')
-    for mname in ('gzip.open(source, \'rb\')', 'lzma.open(source, \'rb\')'):
-        k2 = f'decompress-read-only:{mname[:9]}'
-        res.inst(k2, gd.module.loc(gd.node), mname)
-        if mname not in s:
-            res.find(k2, gd.module.loc(gd.node), f'_get_decompressed no longer opens the compressed source read-only ({mname})')
+    # every open of the source (gzip.open / lzma.open, called directly or through a local chosen between the two) is read-only
+    opens = [c for c in walk_no_nested(gd.node) if isinstance(c, ast.Call) and c.args and norm(c.args[0]) == 'source'
+             and ('open' in norm(c.func) or isinstance(c.func, ast.Name))
+             and norm(c.func) not in ('is_gzip', 'is_lzma', 'Path', 'str')]
+    src_text = norm(gd.node)
+    for opener in ('gzip.open', 'lzma.open'):
+        k2 = f'decompress-read-only:{opener}'
+        res.inst(k2, gd.module.loc(gd.node), f"{opener}(source, 'rb')")
+        modes_ok = bool(opens) and all((len(c.args) > 1 and norm(c.args[1]) == "'rb'") or any(k.arg == 'mode' and norm(k.value) == "'rb'" for k in c.keywords)
+                                       for c in opens)
+        if opener not in src_text or not modes_ok:
+            res.find(k2, gd.module.loc(gd.node), f"_get_decompressed no longer opens the compressed source read-only ({opener}(source, 'rb'))")
     ip = ctx.repo.func('project', 'iterpackages')
     key = 'tar-tempdir'
     s = Frag(ip.node)
